@@ -31,6 +31,29 @@ def span_of(page, node):
     return pre, post
 
 
+def deletes_only_occurrences(old, new, s):
+    """new is old with one or more pairwise disjoint occurrences of s deleted and nothing else changed (which of several
+    overlapping occurrences are taken is not specified)"""
+    import functools
+    import sys
+    sys.setrecursionlimit(max(sys.getrecursionlimit(), 20000))
+    n, m, k = len(old), len(new), len(s)
+    if not (k and m < n and (n - m) % k == 0):
+        return False
+
+    @functools.lru_cache(maxsize=None)
+    def ok(i, j):
+        while i < n and j < m and old[i] == new[j] and not old.startswith(s, i):
+            i += 1
+            j += 1
+        if i == n:
+            return j == m
+        if j < m and old[i] == new[j] and ok(i + 1, j + 1):
+            return True
+        return old.startswith(s, i) and ok(i + k, j)
+    return ok(0, 0)
+
+
 def make_value(rng, tag):
     import mwparserfromhell as M
     k = rng.random()
@@ -53,6 +76,11 @@ def one_case(seed):
     text = wikigen.gen_doc(rng, depth=rng.randint(1, 4))
     if rng.random() < 0.3:
         text = text + text[: len(text) // 2]          # repeated text: several nodes with equal rendering
+    if rng.random() < 0.25:
+        # a run of identical adjacent nodes: multi-node string targets overlap themselves there
+        unit = rng.choice(["<br/>", "{{a}}", "[[b]]", "{{a}}b", "&amp;", "<!--c-->"])
+        rep = unit * rng.randint(3, 5)
+        text = rng.choice([rep + text, text + rep, "{{t|1=p" + rep + "q}}" + text, text + "x" + rep + "y"])
     page = M.parse(text)
     nodes = page.filter()
     if not nodes:
@@ -234,9 +262,16 @@ def one_case(seed):
             if msg:
                 return text, ops_done, "after set(%d, %r) on the page: %s" % (i, vtext[:20], msg), nested
         else:
-            # ---- string target
+            # ---- string target: the text of one node, or of a run of 2-3 adjacent nodes of some node list
             n = rng.choice(nodes)
             s = str(n)
+            lists = [page] + [cc for nn in nodes for cc in nn.__children__() if len(cc.nodes) >= 2]
+            if rng.random() < 0.5:
+                holder = rng.choice(lists)
+                L0 = len(holder.nodes)
+                if L0 >= 2:
+                    a0 = rng.randint(0, L0 - 2)
+                    s = "".join(str(x) for x in holder.nodes[a0:a0 + rng.randint(2, 3)])
             if not s or MARK in s:
                 continue
             op = rng.choice(["remove", "insert_before"])
@@ -252,7 +287,7 @@ def one_case(seed):
                 return text, ops_done, "%s(%r) raised %r" % (op, s[:40], e), nested
             new = str(page)
             if op == "remove":
-                if not (len(new) < len(old) and (len(old) - len(new)) % len(s) == 0 and old.replace(s, "") == new.replace(s, "")):
+                if not deletes_only_occurrences(old, new, s):
                     return text, ops_done, "remove(%r) changed something other than occurrences of the string: %r -> %r" % (s[:40], old[:100], new[:100]), nested
             else:
                 z = "{{ZZ%d}}" % step
